@@ -71,6 +71,10 @@ def comm_fn(m):
         return lambda q, p: max(a, b * abs(q))
     if k == "prop":
         return lambda q, p: a * abs(q) * p
+    if k == "sell":  # a levy on sales only
+        return lambda q, p: a * abs(q) * p if q < 0 else 0.0
+    if k == "buy":  # a duty on purchases only
+        return lambda q, p: a * abs(q) * p if q > 0 else 0.0
     raise ValueError(k)
 
 
